@@ -51,7 +51,7 @@ def parseCall : List String → Option Call
   | ["renameatt", v, nb, ex, iu, lg] => some (.renameAtt (pv v) (pb nb) (pb ex) (pb iu) (pb lg))
   | ["renamevar", v, nb, iu, lg] => some (.renameVar (pv v) (pb nb) (pb iu) (pb lg))
   | ["renamedim", nb, db, iu, lg] => some (.renameDim (pb nb) (pb db) (pb iu) (pb lg))
-  | "rw" :: p :: c :: v :: t :: cb :: _ => some (.rw (pb p) (pb c) (pv v) (pb t) (pb cb))
+  | "rw" :: p :: c :: v :: t :: cb :: fl => some (.rw (pb p) (pb c) (pv v) (pb t) (pb cb) (fl == ["varn"]))
   | "post" :: k :: v :: t :: cb :: _ =>
     let kind := if k == "iput" then PostKind.iput else if k == "iget" then PostKind.iget else PostKind.bput
     some (.post kind (pv v) (pb t) (pb cb))
@@ -83,7 +83,9 @@ def handle (ds : DS) (line : String) : DS × String :=
     let r := pb hr
     let s := if kind == "created" then created r else openedFile (kind == "openrw") r
     let a := abs s     -- the documented initial state is the abstraction of the initial flags
-    ({ cfg := ⟨pb cfg⟩, s := s, a := a }, s!"st {showState s} | {showA a}")
+    -- cfg: bit 0 = fillChecksErr, bit 1 = multi
+    let n := cfg.toNat!
+    ({ cfg := ⟨n % 2 == 1, n / 2 % 2 == 1⟩, s := s, a := a }, s!"st {showState s} | {showA a}")
   | ["E"] => (ds, "ok")
   | k :: rest =>
     if k == "C" || k == "P" then
